@@ -1,6 +1,6 @@
 """
 Bounded stand-in (labelled bounded): GroupBase.idx2model and GroupBase.get on a small real group (two stub models registered through
-GroupBase.add_model / add), exhaustive over idx in {registered int, registered str, unknown, None} x allow_none in {False, True},
+GroupBase.add_model / add), exhaustive over idx in {registered int, registered str, the registered falsy indices 0 and '', unknown, None} x allow_none in {False, True},
 scalar and list form.  Oracle: a registered idx gives its own model / value; None is accepted only with allow_none (giving
 None / the default); everything else raises KeyError -- a dangling reference is never resolved to something else.
 """
@@ -22,14 +22,14 @@ def run():
             return np.array([self.vals[i] for i in idx]) if isinstance(idx, (list, tuple, np.ndarray)) else self.vals[idx]
 
     g = GroupBase()
-    ma, mb = Stub('A', {1: 10.0, 2: 20.0}), Stub('B', {'G4': 40.0})
+    ma, mb = Stub('A', {1: 10.0, 2: 20.0, 0: 5.0}), Stub('B', {'G4': 40.0, '': 45.0})
     g.add_model('A', ma)
     g.add_model('B', mb)
-    for idx, m in ((1, ma), (2, ma), ('G4', mb)):
+    for idx, m in ((1, ma), (2, ma), ('G4', mb), (0, ma), ('', mb)):
         g.add(idx, m)
-    owner = {1: ma, 2: ma, 'G4': mb}
+    owner = {1: ma, 2: ma, 'G4': mb, 0: ma, '': mb}       # 0 and '' are ordinary (falsy) indices, not "no device"
     n, bad = 0, []
-    universe = [1, 'G4', 'nope', 99, None]
+    universe = [1, 'G4', 0, '', 'nope', 99, None]
     for allow_none in (False, True):
         for q in [[x] for x in universe] + [list(p) for p in itertools.product(universe, repeat=2)]:
             n += 1
